@@ -183,6 +183,14 @@ pub struct GateWait {
     w: Arc<World>,
     g: usize,
     op: Option<OpId>,
+    /// identifies this await instance (0 = not assigned yet)
+    key: usize,
+}
+
+impl GateWait {
+    pub fn new(w: &Arc<World>, g: usize, op: Option<OpId>) -> GateWait {
+        GateWait { w: w.clone(), g, op, key: 0 }
+    }
 }
 
 impl Future for GateWait {
@@ -196,7 +204,19 @@ impl Future for GateWait {
                 }
                 true
             } else {
-                i.gates[this.g].wakers.push(cx.waker().clone());
+                // like a oneshot receiver, an await instance keeps only its latest waker unless the case asks the gate
+                // to remember (and later fire) every waker it has ever been given
+                if this.key == 0 {
+                    i.gates[this.g].next_key += 1;
+                    this.key = i.gates[this.g].next_key;
+                }
+                let keep_all = this.w.case.cfg.gate_keep_all;
+                let key = this.key;
+                let gs = &mut i.gates[this.g];
+                match gs.wakers.iter_mut().find(|(k, _)| *k == key) {
+                    Some(slot) if !keep_all => slot.1 = cx.waker().clone(),
+                    _ => gs.wakers.push((key, cx.waker().clone())),
+                }
                 if i.gates[this.g].history.len() < 16 {
                     i.gates[this.g].history.push(cx.waker().clone());
                 }
@@ -388,7 +408,7 @@ fn run_steps(w: &Arc<World>, op: OpId, p: &mut Payload, steps: &[Step], hs: &mut
                 w.open_gate(*g as usize);
             }
             Step::BlockOnGate { g } => {
-                let mut gw = GateWait { w: w.clone(), g: *g as usize, op: None };
+                let mut gw = GateWait::new(w, *g as usize, None);
                 block_on(&mut gw);
             }
             Step::Panic => do_panic(w, op),
@@ -432,7 +452,7 @@ fn fut_body<'a>(w: Arc<World>, id: OpId, p: &'a mut Payload, body: Vec<Step>, mu
                 Step::Touch => w.touch(id, p),
                 Step::Yield => vthread::yield_now(),
                 Step::AwaitGate { g } => {
-                    GateWait { w: w.clone(), g: *g as usize, op: Some(id) }.await;
+                    GateWait::new(&w, *g as usize, Some(id)).await;
                 }
                 Step::NestedDesync { o, body, id: nid } => nested_desync(&w, *o as usize, *nid, body, &hs),
                 Step::NestedSync { o, body, id: nid } => nested_sync(&w, *o as usize, *nid, body, &hs),
@@ -470,7 +490,7 @@ fn fut_body<'a>(w: Arc<World>, id: OpId, p: &'a mut Payload, body: Vec<Step>, mu
                     w.open_gate(*g as usize);
                 }
                 Step::BlockOnGate { g } => {
-                    let mut gw = GateWait { w: w.clone(), g: *g as usize, op: None };
+                    let mut gw = GateWait::new(&w, *g as usize, None);
                     block_on(&mut gw);
                 }
                 Step::Panic => do_panic(&w, id),
@@ -721,7 +741,7 @@ fn pipe_item<'a>(w: Arc<World>, pipe_op: OpId, s: usize, p: &'a mut Payload, ite
                 Step::Touch => w.touch(id, p),
                 Step::Yield => vthread::yield_now(),
                 Step::AwaitGate { g } => {
-                    GateWait { w: w.clone(), g: *g as usize, op: Some(id) }.await;
+                    GateWait::new(&w, *g as usize, Some(id)).await;
                 }
                 Step::NestedDesync { o, body, id: nid } => {
                     // nested op ids inside pipe bodies are reused per item: only the first item uses them
@@ -982,7 +1002,7 @@ impl CallerEnv {
                 if let Some(h) = self.hs[*o as usize].as_ref() {
                     self.stage(Stage::InCall(*id));
                     w.inv(*id);
-                    let gate = GateWait { w: w.clone(), g: *g as usize, op: Some(*id) };
+                    let gate = GateWait::new(&w, *g as usize, Some(*id));
                     let w2 = w.clone();
                     let id2 = *id;
                     let body2 = body.clone();
